@@ -257,6 +257,11 @@ class TimedToSequential(engines.engine.Engine, CompilerMixin):
             new_kind.unset_time(timefeat)
         for durfeat in FEATURES["EXPRESSION_DURATION"]:
             new_kind.unset_expression_duration(durfeat)
+        # an increase / decrease at the end of a durative action becomes the assignment
+        # `x := x + k` (with the start effects substituted into it)
+        if problem_kind.has_increase_effects() or problem_kind.has_decrease_effects():
+            new_kind.set_effects_kind("FLUENTS_IN_NUMERIC_ASSIGNMENTS")
+            new_kind.set_problem_type("GENERAL_NUMERIC_PLANNING")
         # Start-time effect values are substituted into end-time conditions and into the
         # values of end-time effects, so an interpreted function call appearing in any effect
         # value can end up in a condition or in an effect of a different kind; declare all of
